@@ -1,4 +1,5 @@
 from ..core import Ob
+from ..harness import c20 as _h
 
 H = 'vt.harness.c20'
 U = 'replicat.utils:'
@@ -39,6 +40,10 @@ def obligations(tier):
         Ob('R3e', 'E', 'chunk sizes the four commands really pass to the backend: 1 <= size <= L/4', '14 limits (4..10^9) x 5 concurrency values = 70',
            ['replicat.repository:Repository.snapshot', 'replicat.repository:Repository.restore', 'replicat.repository:Repository.upload_objects',
             'replicat.repository:Repository.download_objects'], module=H, func='r3e_commands', timeout=600),
+        Ob('R7', 'E', 'the local, S3-compatible and B2 adapters honour the chunk size they are given: every read request on the payload stream of upload_stream and every write of download_stream is at most chunk_size bytes (the precondition d <= L/4 of R1/R2 at the adapter level), bytes intact',
+           '3 adapters x 5 chunk sizes (1..200000) x 4 payload sizes (0..300000) x up/down = 120', ['replicat.backends.local:Local.upload_stream', 'replicat.backends.s3c:S3Compatible.upload_stream', 'replicat.backends.s3c:_get_stream_hexdigest',
+            'replicat.backends.b2:B2.upload_stream', 'replicat.utils:aiter_chunks', 'replicat.backends.s3c:S3Compatible.download_stream', 'replicat.backends.b2:B2.download_stream'],
+           module=H, func='r7_adapter_pieces', timeout=600, known={'F14': _h.known_f14}),
         py('R5', 'r5_streams', 'two streams sharing the limiter: aggregate bound', '2 streams x 3 calls, L=1000', known={'F9': _known_f9}),
         Ob('R6', 'E', 'N streams with instantaneous I/O (no per-call credit): window bound under every interleaving of the pause sections; pause methods lifted as cooperative generators, virtual clock',
            'read/write x 2..4 streams x 4^4 schedule patterns x 6 calls each = 1536', FN[2:], module=H, func='r6_streams_instant', timeout=900, shards=4),
